@@ -174,6 +174,17 @@ extern double cs_apply_error(vnacal_t *vcp, int ci, const cs_scenario *sc,
  */
 extern int cs_terms_residual(vnacal_t *vcp, int ci, const cs_scenario *sc,
 	long double *worst);
+/*
+ * cs_terms_gradient (oracle/csterms.c): with inconsistent measurements
+ * (sc->noise) the solved terms must minimise the sum of squares of the
+ * documented equations the standards contribute; exact test through the
+ * orthogonality of the residual to its derivative by every free term.
+ * m form, every type but E12.  *worst: largest cosine, *rnorm: size of the
+ * residual relative to the terms (0: nothing tested), *lworst: largest
+ * relative deviation of an outside leakage term from the mean of its cells.
+ */
+extern int cs_terms_gradient(vnacal_t *vcp, int ci, const cs_scenario *sc,
+	long double *worst, long double *rnorm, long double *lworst);
 
 /* can vnacal_apply be used with this shape? */
 extern bool cs_apply_ok(const cs_vna *v);
